@@ -118,6 +118,8 @@ fn judge_trace(log: &str, assign: &[usize], s: u64, e: u64, stride: u64) -> Trac
         let num = name.strip_prefix("blk")?.strip_suffix(".dat")?;
         num.parse::<u64>().ok().map(|n| (n / stride) as usize)
     };
+    // file -> number of descriptors open on it (a file is closed when the last of them is)
+    let mut fds: BTreeMap<usize, usize> = BTreeMap::new();
     let mut open: BTreeSet<usize> = BTreeSet::new();
     let mut peak = 0usize;
     let mut problems = Vec::new();
@@ -133,13 +135,18 @@ fn judge_trace(log: &str, assign: &[usize], s: u64, e: u64, stride: u64) -> Trac
                     if f.get(3).map(|x| x.starts_with('-')).unwrap_or(false) {
                         continue;
                     }
+                    *fds.entry(n).or_insert(0) += 1;
                     open.insert(n);
                     peak = peak.max(open.len());
                 }
             }
             "close" => {
                 if let Some(n) = file_of(f[2]) {
-                    open.remove(&n);
+                    let c = fds.entry(n).or_insert(0);
+                    *c = c.saturating_sub(1);
+                    if *c == 0 {
+                        open.remove(&n);
+                    }
                 }
             }
             "marker" => {
@@ -148,7 +155,7 @@ fn judge_trace(log: &str, assign: &[usize], s: u64, e: u64, stride: u64) -> Trac
                 // block h has been delivered: every open file must still hold a block of a height yet to come
                 for n in &open {
                     if maxh.get(n).map(|m| *m <= h).unwrap_or(true) {
-                        problems.push(("file-left-open-after-its-highest-block".to_string(), format!("after height {} file {} (highest block {:?}) is still open; open set {:?}", h, n, maxh.get(n), open)));
+                        problems.push(("file-left-open-after-its-highest-block".to_string(), format!("after height {} file {} (highest block {:?}) is still open ({} descriptor(s)); open set {:?}", h, n, maxh.get(n), fds.get(n).copied().unwrap_or(0), open)));
                     }
                 }
             }
@@ -220,25 +227,37 @@ pub fn run() -> Report {
     let chain = dependent_chain(btc, 0, n);
     let parts_list = partitions(n);
     let ranges: Vec<(Option<u64>, Option<u64>)> = vec![(None, None), (Some(2), None), (None, Some(3)), (Some(1), Some(4))];
-    let mut cases: Vec<(Vec<usize>, (Option<u64>, Option<u64>), bool, u64, u8)> = Vec::new();
+    // the same heights with blocks of 33 KB .. 100 KB among small ones (larger than any read buffer a blk reader is likely to use)
+    let chain_big = {
+        let mut cb = refmodel::chain::ChainBuilder::with_genesis(btc);
+        while cb.blocks.len() < n {
+            let h = cb.next_height() as usize;
+            let sz = [40_000usize, 300, 70_000, 33_000, 100, 100_000][h % 6];
+            cb.push(vec![refmodel::ser::Tx { version: 1, segwit: false, inputs: vec![refmodel::ser::TxIn::spend([0xe7; 32], h as u32)], outputs: vec![refmodel::ser::TxOut { value: 5, script: vec![0x51; sz] }, refmodel::chain::pay(9, 77)], locktime: 0, wide: 0 }]);
+        }
+        cb
+    };
+    let mut cases: Vec<(Vec<usize>, (Option<u64>, Option<u64>), bool, u64, u8, bool)> = Vec::new();
     for p in &parts_list {
+        cases.push((p.clone(), (None, None), false, 1, 0, true));
+        cases.push((p.clone(), (Some(1), Some(4)), false, 1, 0, true));
         for r in &ranges {
-            cases.push((p.clone(), *r, false, 1, 0));
+            cases.push((p.clone(), *r, false, 1, 0, false));
         }
         // the same partition with the blocks of every file stored out of height order
         for order in [1u8, 2] {
-            cases.push((p.clone(), (None, None), false, 1, order));
-            cases.push((p.clone(), (Some(1), Some(4)), false, 1, order));
+            cases.push((p.clone(), (None, None), false, 1, order, false));
+            cases.push((p.clone(), (Some(1), Some(4)), false, 1, order, false));
         }
         // the same partition with a stale block at the end of every file (whole range and one mid-file range)
-        cases.push((p.clone(), (None, None), true, 1, 0));
-        cases.push((p.clone(), (Some(2), None), true, 1, 0));
+        cases.push((p.clone(), (None, None), true, 1, 0, false));
+        cases.push((p.clone(), (Some(2), None), true, 1, 0, false));
         // the same partition with file numbers k * stride
         for st in STRIDES.iter().skip(1) {
-            cases.push((p.clone(), (None, None), false, *st, 0));
+            cases.push((p.clone(), (None, None), false, *st, 0, false));
         }
     }
-    rep.rule = format!("ALL {} set partitions of heights 0..{} into blk files (disjoint, overlapping and interleaved spans) x 4 range shapes, plus every partition again with a never-connected stale block (with data) appended to every file one height above that file's highest active block, with file numbers k*stride for strides 256, 4096, 65536, 2^32, 2^32+4096, and with the blocks of every file stored in descending height order / highest block first: (1) the syscall trace of the real binary (open/close of blk files interleaved with per-height markers) is replayed through the open-set automaton of the statement and its peak compared with the model's overlap number; (2) black box: the run must succeed under RLIMIT_NOFILE = N1 + overlap - 1 with N1 calibrated on the single-file layout; plus disjoint layouts of 200 and 1200 one-block files under N1; non-trivial = distinct (partition, range) with >= 2 files", parts_list.len(), n - 1);
+    rep.rule = format!("ALL {} set partitions of heights 0..{} into blk files (disjoint, overlapping and interleaved spans) x 4 range shapes, plus every partition again with a never-connected stale block (with data) appended to every file one height above that file's highest active block, with file numbers k*stride for strides 256, 4096, 65536, 2^32, 2^32+4096, with the blocks of every file stored in descending height order / highest block first, and with blocks of 33 KB to 100 KB among the small ones: (1) the syscall trace of the real binary (open/close of blk files interleaved with per-height markers) is replayed through the open-set automaton of the statement and its peak compared with the model's overlap number; (2) black box: the run must succeed under RLIMIT_NOFILE = N1 + overlap - 1 with N1 calibrated on the single-file layout; plus disjoint layouts of 200 and 1200 one-block files under N1; non-trivial = distinct (partition, range) with >= 2 files", parts_list.len(), n - 1);
     rep.bound = json!({"heights": n, "partitions": parts_list.len(), "ranges": ranges.len(), "large_layouts": [200, 1200]});
     rep.assumptions = vec!["'height yet to come' is read against the whole index (a file whose remaining blocks lie beyond --end may stay open until exit)".into()];
     let root = refmodel::world::scratch_root();
@@ -263,9 +282,12 @@ pub fn run() -> Report {
     let parts = par_fold(
         &cases,
         || Report::new("C17", "e3a"),
-        |w, _i, (assign, (s0, e0), stale, stride, order), acc| {
+        |w, _i, (assign, (s0, e0), stale, stride, order, big), acc| {
             let wk = Worker::new(&root, w);
-            let world = world_numbered(&chain, assign, *stale, *stride, *order);
+            let world = world_numbered(if *big { &chain_big } else { &chain }, assign, *stale, *stride, *order);
+            if *big {
+                acc.count("partitions-with-blocks-larger-than-32-KiB", 1);
+            }
             if *order != 0 {
                 acc.count("partitions-with-blocks-stored-out-of-height-order-inside-the-files", 1);
             }
@@ -283,7 +305,7 @@ pub fn run() -> Report {
             let nfiles = assign.iter().collect::<BTreeSet<_>>().len();
             acc.states += 1;
             if nfiles >= 2 {
-                acc.nontrivial.insert(h8(format!("{:?}{:?}{:?}{}{}{}", assign, s0, e0, stale, stride, order).as_bytes()));
+                acc.nontrivial.insert(h8(format!("{:?}{:?}{:?}{}{}{}{}", assign, s0, e0, stale, stride, order, big).as_bytes()));
             }
             // oracle 1: trace
             let _ = std::fs::remove_file(wk.dir.join("shim.log"));
